@@ -38,6 +38,26 @@ def corpus(name):
     return ("corpus", name)
 
 
+def enum(kind, fam, stride):
+    """every stride-th pair of an ENUMERATED family (gen.rs `en:...`: all ordered pairs of subsets of a
+    small triangulated lattice); stride 1 = exhaustive; the offset inside a stride depends on VERIF_SEED"""
+    return ("enum", kind, fam, stride)
+
+
+# FLOAT families (harness/src/fwit.rs): lattice operands with kept collinear vertices (every contact vertex-to-vertex, along
+# identical edges, or a proper crossing at a cell centre) under a random affine map with irrational entries, rounded to
+# f64 / f32 - no image in the integer domain; judged at witness points by exact arithmetic on the floats (FloatGeometry.tla)
+ROTF = "rot-cx,rot-rect,rot-cxmix,rot-cxabut,rot-cxsub"
+ROTCHAIN = "rot-cx,rot-rect,rot-cxabut,rot-cxsub"        # no computed points in results: they can be fed back
+EN_RECT = "en:3x2:4:0_0:s"        # 64 x 64 rectilinear cell sets (shared edges, collinear chains, T-touches on verticals)
+EN_RECTK = "en:3x2:4:0_0:k"       # the same with collinear vertices kept
+EN_TRI = "en:2x2:3:0_0:s"         # 256 x 256 subsets of 8 triangles (alternating diagonals; octilinear)
+EN_BOTH = "en:2x1:2:0_0:s"        # 256 x 256 subsets of the 8 triangles of two cells cut by both diagonals
+EN_SHIFT = "en:2x2:4/0:1_1:s"     # 16 cell sets x 256 triangle sets on a lattice shifted by half a cell (proper crossings)
+EN_MIX = "en:2x1:0/1:0_0:k"       # 16 x 16: opposite diagonals (crossings at cell centres)
+EN_HOLE = "en:3x3:4:0_0:s"        # 512 x 512 cell sets of a 3x3 grid (holes, diagonal neighbours): sampled
+
+
 # step = (label, laws, onlyF, profile, [batches])
 def plan(prop, tier):
     q = tier == "quick"
@@ -49,13 +69,18 @@ def plan(prop, tier):
                   ops("single", "pinch,holefill,onion,teeth,pinch,lamina", 600 if q else 6000, 3, 120),   # many rings through one vertex (also as a T-touch on the edge below), nested operands, interlocking operands
                   ("fixedops", "witness", "latraw", 2000 if q else 12000, 3, 120, 20260926),   # general position, inexact crossings: judged at witness points (C01_Witness); fixed set, see finding N8
                   ops("single", "bigfan23,bigsliver25,bigfan25,bigsliver20", 200 if q else 2000, 3, 120),   # beyond 2^12 (differences <= 2^25, see DESIGN N5): touch-only operands, arithmetic-free laws
-                  tri(2, 840, 3 if q else 1, 0)] + ([] if q else [ops("single", EXACT, 600, 6, 260)]))],
+                  ops("fwit", ROTF, 300 if q else 6000, 3 if q else 4, 120 if q else 200), ops("fwit32", ROTF, 150 if q else 3000, 3, 120),   # float operands (irrational affine images), witness points, exact arithmetic on the floats
+                  enum("fwit", "rot-" + EN_RECTK, 16 if q else 1), enum("fwit", "rot-" + EN_MIX, 2 if q else 1),
+                  enum("single", EN_RECT, 8 if q else 1), enum("single", EN_TRI, 128 if q else 4), enum("single", EN_SHIFT, 8 if q else 1), enum("single", EN_MIX, 1),   # enumerated: every pair of subsets of a small triangulated lattice
+                  tri(2, 840, 3 if q else 1, 0)] + ([] if q else [ops("single", EXACT, 600, 6, 260), enum("single", EN_RECTK, 1), enum("single", EN_BOTH, 4), enum("single", EN_HOLE, 32)]))],
         "C02": [("nesting", {"C02"}, "any", "release",
                  [corpus("fixed_findings.ndjson"), corpus("hand.ndjson"),
                   ops("single", SHARED, 600 if q else 5000, 3 if q else 4, 120 if q else 160),
                   ops("single", "cxabut,cxsub,rect,cxabut", 400 if q else 4000, 5, 220),   # larger regions: holes above shared segments
                   ops("single", "lamina,onion,lamina,holefill,pinch", 500 if q else 5000, 3, 200),   # nesting: holes above holes, islands stacked in one hole, polygons starting in between
-                  tri(2, 840, 3 if q else 1, 1)] + ([] if q else [ops("single", "cx,rect", 600, 6, 260)]))],
+                  ops("fwit", "rot-cxabut,rot-cxsub,rot-cx,rot-rect", 300 if q else 5000, 4, 200), enum("fwit", "rot-en:3x3:4:0_0:k", 1024 if q else 32),   # nesting on float operands (holes, islands), judged at witness points
+                  enum("single", EN_HOLE, 512 if q else 16), enum("single", EN_RECT, 8 if q else 1),   # enumerated cell sets of a 3x3 grid (holes, diagonal neighbours) and of a 3x2 grid (exhaustive in thorough)
+                  tri(2, 840, 3 if q else 1, 1)] + ([] if q else [ops("single", "cx,rect", 600, 6, 260), enum("single", EN_TRI, 8)]))],
         "C04": [("provenance", {"C04"}, "any", "release",
                  [corpus("fixed_findings.ndjson"), corpus("hand.ndjson"),
                   ops("single", ALLF, 600 if q else 5000, 3 if q else 4, 120 if q else 160),
@@ -63,14 +88,19 @@ def plan(prop, tier):
                   ops("single", "rectw", 700 if q else 6000, 4, 160), ops("five", "rectw", 60 if q else 600, 3, 120),
                   ops("single", "tfan,fan,lat", 300 if q else 3000, 3, 120),
                   ops("single", "lamina,pinch,onion,lamina", 400 if q else 4000, 3, 200),   # ring orientation at nesting depth >= 2
+                  ops("fwit", ROTF, 300 if q else 1500, 3 if q else 4, 120 if q else 200), ops("fwit32", ROTF, 150 if q else 750, 3, 120),   # float operands: provenance within tolerance, decided exactly on the floats (C04_F)
+                  enum("fwit", "rot-en:2x1:2:0_0:k", 256 if q else 16),
+                  enum("single", EN_BOTH, 128 if q else 4), enum("single", EN_SHIFT, 8 if q else 1)] + ([] if q else [enum("single", EN_RECTK, 1)]) + [
                   tri(2, 840, 3 if q else 1, 2)])],
         "C05": [("partition", {"C05"}, "any", "release",
-                 [ops("five", ALLF, 300 if q else 3000, 3 if q else 4, 100 if q else 140), ops("five", "pinch,holefill,onion,teeth,pinch,lamina", 400 if q else 4000, 3, 120)])],
+                 [ops("five", ALLF, 300 if q else 3000, 3 if q else 4, 100 if q else 140), ops("five", "pinch,holefill,onion,teeth,pinch,lamina", 400 if q else 4000, 3, 120),
+                  enum("five", EN_RECT, 16 if q else 1), enum("five", EN_TRI, 512 if q else 16)])],
         "C06": [("algebra", {"C06"}, "any", "release",
                  [ops("five", ALLF, 200 if q else 2000, 3 if q else 4, 100 if q else 140),
                   ops("five", "teeth", 3000 if q else 20000, 3, 100),     # interlocking operands: cheap sessions, at volume
                   ops("five", "cxshift,aff-cxshift,cxshift,lat", 600 if q else 6000, 3, 100),   # lattices shifted against each other: partial collinear overlaps on oblique lines, either operand starting first
                   ops("far", ALLF, 120 if q else 1000, 3, 100),
+                  enum("five", EN_RECTK, 16 if q else 1), enum("five", EN_SHIFT, 16 if q else 2), enum("five", EN_MIX, 2 if q else 1),
                   ops("deg", EXACT, 60 if q else 300)])],
         "C07": [("representation", {"C07"}, "any", "release",
                  [ops("repr", ALLF, 120 if q else 1200, 3 if q else 4, 90 if q else 130),
@@ -85,11 +115,12 @@ def plan(prop, tier):
                  [corpus("fan_f32.ndjson"), ops("f32", ALLF, 250 if q else 2500, 3 if q else 4, 100 if q else 140),
                   ops("f32", "fan", 250 if q else 2500, 3, 100), ops("f32", "bigfan23,bigfan24,bigfan20", 400 if q else 4000, 3, 100)]),
                 ("f32-guarantees", {"C01", "C02", "C03", "C04", "C05", "C06"}, "f32", "release",
-                 [corpus("fan_f32.ndjson"), ops("f32", ALLF, 150 if q else 1200, 3, 100), ops("f32", "fan", 150 if q else 1500, 3, 100),
+                 [corpus("fan_f32.ndjson"), ops("f32", ALLF, 150 if q else 1200, 3, 100), ops("f32", "fan", 150 if q else 1500, 3, 100), ops("fwit32", ROTF, 200 if q else 2000, 3, 120),
                   ops("f32", "bigfan23,bigfan24", 200 if q else 2000, 3, 100)])],
         "C11": [("chains", {"C11", "C03", "C02"}, "any", "release",
                  [ops("chain", EXACT, 120 if q else 1000, 3, 90), ops("chain3", EXACT, 40 if q else 500, 2, 60),
-                  ops("chain", "frames,cxabut,cxsub,frames,rect", 500 if q else 5000, 3, 90), ops("chain", "holefill", 400 if q else 3000, 3, 120), ops("chain3", "frames,cxabut", 120 if q else 1200, 3, 70)])],
+                  ops("chain", "frames,cxabut,cxsub,frames,rect", 500 if q else 5000, 3, 90), ops("chain", "holefill", 400 if q else 3000, 3, 120), ops("chain3", "frames,cxabut", 120 if q else 1200, 3, 70),
+                  ops("fchain", ROTCHAIN, 200 if q else 3000, 3, 120)])],      # chained calls on float operands (irrational affine images), witness points
         "C12": [("purity", {"C12"}, "any", "release",
                  [("fixtures",), ("prochist", "pf32", "fan,bigfan23,lat,bigfan24,cx,bigsliver20,aff-cx", 280 if q else 2800, 3, 100),
                   ("prochist", "pf64", "fan,lat,cx,bigsliver25,aff-cx", 100 if q else 1000, 3, 100),
@@ -99,11 +130,13 @@ def plan(prop, tier):
                  [("fixtures",), ("rawcorpus", "ttouch.in"), ("rawcorpus", "runaway.in"), corpus("ttouch_int.ndjson"), ("fixedops", "single", "latraw", 600 if q else 18000, 3, 120, 20260927), corpus("ulp.ndjson"), corpus("ulp_frames.ndjson"), corpus("fixed_findings.ndjson"), corpus("hand.ndjson"), corpus("fan_f32.ndjson"),
                   ops("single", ALLF, 400 if q else 4000, 3 if q else 5, 140 if q else 240),
                   ops("deg", EXACT, 60 if q else 400), ops("chain", EXACT, 40 if q else 300, 3, 90),
+                  enum("single", EN_TRI, 256 if q else 4), enum("single", EN_BOTH, 256 if q else 8), ops("fwit", ROTF, 150 if q else 1500, 3, 120), ops("fwit32", ROTF, 100 if q else 1000, 3, 120),
                   tri(2, 840, 5 if q else 1, 3)]),
                 ("returns-debug-assertions", {"C03"}, "any", "dbg",
                  [("fixtures",), ("rawcorpus", "ttouch.in"), corpus("ttouch_int.ndjson"), corpus("ulp_f32_dbgpass.ndjson"), corpus("fixed_findings.ndjson"), corpus("hand.ndjson"),
                   ops("single", ALLF, 400 if q else 4000, 3 if q else 5, 140 if q else 240), ("fixedops", "single", "latraw", 600 if q else 18000, 3, 120, 20260927),   # general position: a FIXED batch (random exploration meets N1 / N2 / N7 about once in 5000 sessions)
                   ops("deg", EXACT, 60 if q else 400), ops("far", EXACT, 40 if q else 300),
+                  enum("single", EN_RECT, 16 if q else 1), enum("single", EN_SHIFT, 16 if q else 1), enum("single", EN_HOLE, 1024 if q else 64), ops("fwit", ROTF, 150 if q else 1500, 3, 120), ops("fwit32", ROTF, 100 if q else 1000, 3, 120),
                   tri(2, 840, 5 if q else 1, 4)])],
     }
     steps = P[prop]
@@ -128,6 +161,14 @@ def record_step(prop, step_idx, label, profile, batches, seed, workdir):
             _, kind, fams, count, kmax, max_edges, fseed = b
             vlib.vh(["rec-ops", "--kind", kind, "--family", fams, "--count", count, "--seed", fseed, "--kmax", kmax,
                      "--max-edges", max_edges, "--sid0", sid0], path, profile=profile, append=True)
+            sid0 += count
+        elif b[0] == "enum":
+            _, kind, fam, stride = b
+            total = int(vlib.vh_out(["enum-total", "--family", fam], profile=profile))
+            start = bseed % stride
+            count = (total - start + stride - 1) // stride
+            vlib.vh(["rec-ops", "--kind", kind, "--family", fam, "--count", count, "--seed", bseed, "--kmax", 3, "--max-edges", 400,
+                     "--sid0", sid0, "--enum-from", start, "--enum-stride", stride], path, profile=profile, append=True)
             sid0 += count
         elif b[0] == "ops":
             _, kind, fams, count, kmax, max_edges = b
